@@ -92,3 +92,73 @@ Example cancel_inside_first_call :
   let '(r, w) := run_body 50 p (init_world [] false (Some 0%N)) in
   r = Err ETerminated /\ w_ncalls w = 1%N.
 Proof. vm_compute. split; reflexivity. Qed.
+
+(* ---------------------------------------------------------------- whole-evaluator
+   invariants (Proofs/WorldInv.v): for every expression / loop / program, every
+   fuel, every scope and every start world *)
+From Ferret Require Import Proofs.WorldInv.
+
+(* once the context is cancelled no construct of the language invokes a function
+   any more: the sequence of calls in the trace and the call counter are those of
+   the start world *)
+Theorem no_call_after_cancel : forall (f : nat) e sc w, w_cancelled w = true ->
+  calls (w_trace (snd (eval f e sc w))) = calls (w_trace w) /\
+  w_ncalls (snd (eval f e sc w)) = w_ncalls w.
+Proof. exact WorldInv.no_call_after_cancel. Qed.
+Print Assumptions no_call_after_cancel.
+
+Theorem no_call_after_cancel_for : forall (f : nat) q sc w, w_cancelled w = true ->
+  calls (w_trace (snd (eval_for f q sc w))) = calls (w_trace w) /\
+  w_ncalls (snd (eval_for f q sc w)) = w_ncalls w.
+Proof. exact WorldInv.no_call_after_cancel_for. Qed.
+Print Assumptions no_call_after_cancel_for.
+
+Theorem no_call_after_cancel_body : forall (f : nat) p w, w_cancelled w = true ->
+  calls (w_trace (snd (run_body f p w))) = calls (w_trace w) /\
+  w_ncalls (snd (run_body f p w)) = w_ncalls w.
+Proof. exact WorldInv.no_call_after_cancel_body. Qed.
+Print Assumptions no_call_after_cancel_body.
+
+(* ... which the pinned tree did not guarantee: an AGGREGATE reducer is invoked
+   by an iterator that is pulled under a cancelled context *)
+Theorem no_call_after_cancel_pinned_refuted :
+  exists (f : nat) it sc w, w_cancelled w = true /\
+    calls (w_trace (snd (next_g false f it sc w))) <> calls (w_trace w) /\
+    w_ncalls (snd (next_g false f it sc w)) <> w_ncalls w.
+Proof. exact WorldInv.no_call_after_cancel_pinned_refuted. Qed.
+Print Assumptions no_call_after_cancel_pinned_refuted.
+
+(* cancellation is permanent (both strictness settings) *)
+Theorem cancellation_is_permanent : forall strict (f : nat) p w,
+  w_cancelled w = true -> w_cancelled (snd (run_body_g strict f p w)) = true.
+Proof. exact WorldInv.cancellation_is_permanent. Qed.
+Print Assumptions cancellation_is_permanent.
+
+(* ... and only ever arises inside an instrumented call *)
+Theorem cancel_happens_inside_a_call : forall strict (f : nat) e sc w,
+  w_cancelled w = false -> w_cancelled (snd (eval_g strict f e sc w)) = true ->
+  (w_ncalls w < w_ncalls (snd (eval_g strict f e sc w)))%N.
+Proof. exact WorldInv.cancel_happens_inside_a_call. Qed.
+Print Assumptions cancel_happens_inside_a_call.
+
+(* non-vacuity: CANCEL() leaves a cancelled world; a loop over T(1) started in
+   it, and the whole program CANCEL() FOR i IN [1,2,3] RETURN T(1), add no call *)
+Example no_call_after_cancel_nonvacuous :
+  let q := ForIn (bs "i") None (EArr [EInt 1; EInt 2; EInt 3]) []
+             (RReturn false (ECall (bs "T") [EInt 1])) in
+  let w1 := snd (eval 10 (ECall (bs "CANCEL") []) [[]] (init_world [] false None)) in
+  let p := {| p_stmts := [SCall (ECall (bs "CANCEL") [])]; p_ret := BFor q |} in
+  w_cancelled w1 = true /\ calls (w_trace w1) = [(bs "CANCEL", [])] /\
+  calls (w_trace (snd (eval_for 50 q [[]] w1))) = [(bs "CANCEL", [])] /\
+  run_body 50 p (init_world [] false None) = (Err ETerminated, w1).
+Proof. vm_compute. repeat split. Qed.
+
+(* non-vacuity: the context is cancelled inside the second call of a loop and
+   stays cancelled to the end of the run; two calls were counted *)
+Example cancellation_is_permanent_nonvacuous :
+  let p := {| p_stmts := [];
+              p_ret := BFor (ForIn (bs "i") None (EArr [EInt 1; EInt 2; EInt 3]) []
+                              (RReturn false (ECall (bs "T") [EVar (bs "i")]))) |} in
+  let w := snd (run_body 50 p (init_world [] false (Some 1%N))) in
+  w_cancelled w = true /\ w_ncalls w = 2%N.
+Proof. vm_compute. split; reflexivity. Qed.
